@@ -132,10 +132,12 @@ type world struct {
 }
 
 func (w *world) userName(u int) string { return fmt.Sprintf("c19-%s-%d-u%d", runNonce, w.id, u) }
-func pass(u int) string               { return fmt.Sprintf("correct horse %d", u) }
+func pass(u int) string                { return fmt.Sprintf("correct horse %d", u) }
+
+func newWorldID() uint64 { return atomic.AddUint64(&worldCounter, 1) }
 
 func newWorld() *world {
-	w := &world{id: atomic.AddUint64(&worldCounter, 1), owners: map[int]kms.KeyManager{}, spers: map[int]*grant{},
+	w := &world{id: newWorldID(), owners: map[int]kms.KeyManager{}, spers: map[int]*grant{},
 		addedBy: map[int]int{}}
 	w.inner = keepProvider{mem.NewProvider()}
 	w.rec = hx.NewRecProvider(w.inner)
@@ -845,12 +847,13 @@ type builder struct {
 	ntok   int
 	latest map[int]int // user -> latest token number issued (as the generator expects; -1 none)
 	open   map[int]bool
+	short  map[int]bool
 	nextV  int
 	nUsers int
 }
 
 func newBuilder(nUsers int) *builder {
-	b := &builder{latest: map[int]int{}, open: map[int]bool{}, nextV: 100, nUsers: nUsers}
+	b := &builder{latest: map[int]int{}, open: map[int]bool{}, short: map[int]bool{}, nextV: 100, nUsers: nUsers}
 	b.ops = setup(nUsers)
 
 	for u := 1; u <= nUsers; u++ {
@@ -913,6 +916,7 @@ func (b *builder) event(e string) {
 			b.latest[u] = b.ntok
 			b.ntok++
 			b.open[u] = true
+			b.short[u] = ttl != 0
 		}
 	case "openbad":
 		b.ops = append(b.ops, Op{Kind: "open", I: b.firstInst(u), Bad: true, TTL: shortTTL})
@@ -928,7 +932,9 @@ func (b *builder) event(e string) {
 		b.ops = append(b.ops, Op{Kind: "tick", Dt: 12})
 		// a short session may have expired; a later open then issues a new token: let the guess follow
 		for x := range b.open {
-			b.open[x] = false
+			if b.short[x] {
+				b.open[x] = false
+			}
 		}
 	case "new":
 		b.ops = append(b.ops, Op{Kind: "new", U: u})
@@ -1107,7 +1113,7 @@ func main() {
 	}
 
 	// 3. seeded random histories over three profiles
-	nRandom := 250
+	nRandom := 700
 	if args.Tier == "thorough" {
 		nRandom = 4000
 	}
@@ -1157,5 +1163,16 @@ func main() {
 
 	for _, r := range out {
 		tr.Put(r)
+	}
+
+	// methods outside the model: direct oracle only
+	nAttack := 10
+	if args.Tier == "thorough" {
+		nAttack = 100
+	}
+
+	for i := 0; i < nAttack; i++ {
+		tr.Put(signJWTAttack(i))
+		tr.Put(clientAttack(i))
 	}
 }
